@@ -18,7 +18,11 @@ def candidate_bytes(tree, f, cls, k, P):
     if cls == "intact":
         return data
     if cls == "decoy_all":
-        return content("decoy/%s/%d" % (alpha.tree_key(tree, f), k), n, 7)
+        # differs from the original at EVERY byte position (x -> x+1+k in 1..255), so that no piece
+        # - not even one that holds a single byte of this file - can verify by coincidence
+        step = 1 + (k % 200)
+        table = bytes(((b - 1 + step) % 255) + 1 if b else 0 for b in range(256))
+        return data.translate(table)
     if cls == "decoy_some":          # equal except in the last byte: every earlier piece verifies
         if n == 0:
             return data
